@@ -1,6 +1,7 @@
 import GridVerif.Model.Proto
 import GridVerif.Model.Elem
 import GridVerif.Model.Harmonics
+import GridVerif.Gen.Harmonics
 
 namespace GridVerif.Driver.C08
 open GridVerif.Proto GridVerif.Harmonics
@@ -12,6 +13,8 @@ open GridVerif.Proto GridVerif.Harmonics
 * `C08.dYlm L θ φ` ↦ `ok n dθ-rows… n dφ-rows…`
 * `C08.solid L r θ φ` ↦ `ok n rows…`
 * `C08.cartToSph px py pz cx cy cz` ↦ `ok r θ φ`
+* `C08.genCartToSph px py pz cx cy cz` ↦ `ok r θ φ` by the *generated* `Gen.Harmonics.cartToSph` (its equality with the hand
+  model is proved over ℝ only: `r == 0.0` vs `0 < r`; the other generated routines are proved equal for every scalar type)
 * `C08.sphToCart r θ φ cx cy cz` ↦ `ok x y z`
 * `C08.convDeriv dr dθ dφ r θ φ` ↦ `ok 3 gx gy gz`
 * `C08.rowIndex l m` ↦ `ok index`;  `C08.lmOrder L` ↦ `ok n l₀ m₀ l₁ m₁ …`. -/
@@ -33,6 +36,11 @@ def handle : List String → Option String
     let px ← pFloat px; let py ← pFloat py; let pz ← pFloat pz
     let cx ← pFloat cx; let cy ← pFloat cy; let cz ← pFloat cz
     let s := cartToSph (px, py, pz) (cx, cy, cz)
+    pure s!"ok {sFloat s.1} {sFloat s.2.1} {sFloat s.2.2}"
+  | ["C08.genCartToSph", px, py, pz, cx, cy, cz] => do
+    let px ← pFloat px; let py ← pFloat py; let pz ← pFloat pz
+    let cx ← pFloat cx; let cy ← pFloat cy; let cz ← pFloat cz
+    let s := Gen.Harmonics.cartToSph (px, py, pz) (cx, cy, cz)
     pure s!"ok {sFloat s.1} {sFloat s.2.1} {sFloat s.2.2}"
   | ["C08.sphToCart", r, t, p, cx, cy, cz] => do
     let r ← pFloat r; let t ← pFloat t; let p ← pFloat p
